@@ -24,6 +24,8 @@ class Contract:
     returns = None          # type descriptor of the result (for modular calls)
     yields = None           # element type descriptor when the function is a generator
     raises_modifies = {}    # exception class name -> modifies list for that exceptional exit (default: `modifies`)
+    ghosts = ()             # ghost parameters of the contract (e.g. the number of members); a caller supplies
+                            # the witness through a variable of the same name in its own contract
     locals_order = None     # first-binding order of parameters and locals when the contract was written (for pure renames)
 
     def setup(self, ex):
@@ -111,6 +113,15 @@ class World:
         vals = ex.bind_args(f, args, kwargs)
         fr = Frame(VFunc("user", f.name, node=f.node, cls=f.cls, module=f.module), None)
         fr.vars.update(vals)
+        for g in c.ghosts:
+            gv = None
+            for fr_ in reversed(ex.frames):          # the nearest enclosing (inlined) caller that has a witness
+                gv = fr_.lookup(g)
+                if gv is not None:
+                    break
+            if gv is None:
+                raise Unsupported("modular call of %s: no witness for ghost parameter %r in the caller" % (c.qualname, g))
+            fr.vars[g] = gv
         ex.frames.append(fr)
         ex.spec_mode += 1
         saved_old, saved_mode = ex.old, ex.old_mode
